@@ -318,3 +318,14 @@ def recorded_to_segments(value, snap_eps=None):
                 out.append(("closed", start, cur, ()))
             cur = None
     return out
+
+
+def snapshot_glyph(name, glyph):
+    cs, comps = glyph_points(glyph)
+    return {"name": name, "contours": cs, "components": comps, "width": Fr(glyph.width),
+            "anchors": [(a.name, Fr(a.x), Fr(a.y)) for a in glyph.anchors]}
+
+
+def snapshot_glyphset(glyphset):
+    """dict-like of glyph objects -> list of plain glyph dicts (insertion order)"""
+    return [snapshot_glyph(n, glyphset[n]) for n in glyphset.keys()]
